@@ -453,6 +453,9 @@ type c19PagerInfo struct {
 	chars                  map[*types.Var]bool  // slice fields of line
 	appenders              map[*types.Func]bool // methods of line that append one element to a chars field
 	layouts                map[*types.Func]bool // functions whose supergraph stores to Model.lines
+	// builders (set per layout function by c19PagerLayout): local slices of the type of Model.lines that are stored
+	// in Model.lines (`m.lines = b`, the commit): the lines are collected in b and handed over at the end
+	builders map[types.Object]bool
 }
 
 func c19Pager(c *Ctx) {
@@ -529,6 +532,7 @@ func c19Pager(c *Ctx) {
 			if len(fl.stores(pi.fLines)) > 0 {
 				nLayout++
 				c19PagerLayout(c, pi, fi, fl)
+				c19PagerNewlines(c, pi, fi) // C19.n (c19n.go)
 			}
 		}
 		fl := c19NewFlow(c, fi, c19WithLen(c19TypeBounds(c, p.pk)), p.allow)
@@ -606,37 +610,84 @@ func (pi *c19PagerInfo) isFreshLine(rhs ast.Expr) bool {
 	return false
 }
 
+// linesContainer: the container of lines that e names: Model.lines (nil, true) or a builder variable (b, true).
+func (pi *c19PagerInfo) linesContainer(e ast.Expr) (types.Object, bool) {
+	if e == nil {
+		return nil, false
+	}
+	if c19SelField(pi.info, e) == pi.fLines {
+		return nil, true
+	}
+	if o := c19CanonVar(pi.info, e); o != nil && pi.builders[o] {
+		return o, true
+	}
+	return nil, false
+}
+
+// linesStore: the event of a store lhs = rhs to a container of lines (Model.lines or a builder variable); rhs == nil
+// with noValue: a declaration without initial value (the empty slice).
 func (pi *c19PagerInfo) linesStore(lhs, rhs ast.Expr) c19LineEvent {
 	info := pi.info
+	cont, _ := pi.linesContainer(lhs)
 	switch t := rhs.(type) {
 	case *ast.CompositeLit:
 		if len(t.Elts) == 0 {
-			return c19LineEvent{kind: "reset", v: nil}
+			return c19LineEvent{kind: "reset", cont: cont}
 		}
 	case *ast.Ident:
 		if isNilExpr(info, t) {
-			return c19LineEvent{kind: "reset", v: nil}
+			return c19LineEvent{kind: "reset", cont: cont}
+		}
+		// Model.lines = b: the lines collected in the builder b become the lines of the model
+		if b, ok := pi.linesContainer(t); ok && b != nil && cont == nil {
+			return c19LineEvent{kind: "commit", cont: b}
 		}
 	case *ast.SliceExpr:
-		if c19SelField(info, t.X) == pi.fLines && t.Low == nil && t.High != nil {
+		if xc, ok := pi.linesContainer(t.X); ok && xc == cont && t.Low == nil && t.High != nil {
 			if v, ok := constInt(info, t.High); ok && v == 0 {
-				return c19LineEvent{kind: "reset", v: nil}
+				return c19LineEvent{kind: "reset", cont: cont}
 			}
 		}
 	case *ast.CallExpr:
 		if c19IsBuiltin(info, t, "make") != "" && len(t.Args) >= 2 {
 			if v, ok := constInt(info, t.Args[1]); ok && v == 0 {
-				return c19LineEvent{kind: "reset", v: nil}
+				return c19LineEvent{kind: "reset", cont: cont}
 			}
 		}
-		if c19IsBuiltin(info, t, "append") != "" && len(t.Args) == 2 && t.Ellipsis == token.NoPos &&
-			c19SelField(info, t.Args[0]) == pi.fLines && c19TermID(info, t.Args[0]) == c19TermID(info, lhs) {
-			if o := c19CanonVar(info, t.Args[1]); o != nil {
-				return c19LineEvent{kind: "flush", v: o}
+		if c19IsBuiltin(info, t, "append") != "" && len(t.Args) == 2 && t.Ellipsis == token.NoPos {
+			if ac, ok := pi.linesContainer(t.Args[0]); ok && ac == cont && (cont != nil || c19TermID(info, t.Args[0]) == c19TermID(info, lhs)) {
+				if o := c19CanonVar(info, t.Args[1]); o != nil {
+					return c19LineEvent{kind: "flush", v: o, cont: cont}
+				}
 			}
 		}
 	}
 	return c19LineEvent{kind: "otherLines", v: nil}
+}
+
+// findBuilders: the local variables b of the type of Model.lines with a store Model.lines = b in the supergraph.
+func (pi *c19PagerInfo) findBuilders(fl *c19Flow) map[types.Object]bool {
+	out := map[types.Object]bool{}
+	for _, h := range fl.find(func(n ast.Node) bool { _, ok := n.(*ast.AssignStmt); return ok }) {
+		as := h.node.(*ast.AssignStmt)
+		if len(as.Lhs) != len(as.Rhs) || as.Tok != token.ASSIGN {
+			continue
+		}
+		for i, l := range as.Lhs {
+			if c19SelField(pi.info, l) != pi.fLines {
+				continue
+			}
+			if _, isID := unparen(as.Rhs[i]).(*ast.Ident); !isID {
+				continue
+			}
+			v, ok := c19CanonVar(pi.info, as.Rhs[i]).(*types.Var)
+			if !ok || v.IsField() || v.Parent() == nil || v.Parent() == pi.pk.Types.Scope() || !types.Identical(v.Type(), pi.fLines.Type()) {
+				continue
+			}
+			out[v] = true
+		}
+	}
+	return out
 }
 
 func c19PagerDraw(c *Ctx, pi *c19PagerInfo, fi *FuncInfo, fl *c19Flow, sinks []c19Hit) {
@@ -1238,7 +1289,17 @@ func (d *c19Dyn) arithJob(fi *FuncInfo, onlySub, onlyIdx int) (nSub, nIdx int) {
 					// `wantsCursor && ... cursor-top ...`: the difference is evaluated only when the left operands hold
 					underF = c19Or(c19Not(sc), wantsAtom)
 				}
-				if under, _ := fl.holds(sts, underF); under && c19IsCursorMinusTop(info, sb, d.fCursor, d.fTop) {
+				under, _ := fl.holds(sts, underF)
+				if !under && sk.c19Pos != sb.def.c19Pos {
+					// what the argument needs is that wantsCursor is raised where the difference is COMPUTED (the
+					// invariant wantsCursor => cursor >= top orders the operands there); the operands are not
+					// written between the subtraction and this use (checked above), so the value that is used is
+					// that difference whether or not the flag is still raised at the use (it may be cleared first)
+					if dsts := fl.statesAt(sb.def.c19Pos); len(dsts) > 0 {
+						under, _ = fl.holds(dsts, wantsAtom)
+					}
+				}
+				if under && c19IsCursorMinusTop(info, sb, d.fCursor, d.fTop) {
 					why := ""
 					local := map[ast.Stmt]c19Store{}
 					for _, ts := range fl.stores(d.fTop) {
